@@ -38,7 +38,8 @@ ASSUMPTIONS = [
 REQUIRED_CELLS = {'quick': ['op:phases', 'op:phase', 'op:reduce_phases', 'op:as_stream', 'op:solver', 'op:view_write',
                             'op:parent_write', 'op:view_read', 'op:snap', 'op:restore', 'op:empty', 'op:write',
                             'phases:S->S', 'phases:S->M', 'phases:M->M', 'phases:M->S', 'phases:twin', 'phases:merge',
-                            'restore:S->S', 'restore:S->M', 'restore:M->S', 'restore:M->M'],
+                            'restore:S->S', 'restore:S->M', 'restore:M->S', 'restore:M->M', 'op:temporary', 'temporary:deferred=1',
+                            'phases:arg=generator', 'phases:arg=dup-str', 'write:trace-row'],
                   'thorough': []}
 RT = 1e-12
 TAGS = ('F1', 'F2', 'F3', 'F4')
@@ -123,6 +124,7 @@ class Run:
     def __init__(self, ch, ctx, s, m, avoid):
         self.ch, self.ctx, self.s, self.m, self.avoid = ch, ctx, s, m, avoid
         self.snaps = []      # (StreamData, model snapshot)
+        self.temps = []      # TemporaryStream objects created earlier and not entered yet / again
         self.hist = []
         self.nontrivial = False
 
@@ -199,9 +201,10 @@ class Run:
 
     # ------------------------------------------------------------ operations
     def value(self, label):
-        k = self.ch.int(label + '.kind', 0, 4)
+        k = self.ch.int(label + '.kind', 0, 5)
         if k == 0: return 0.0
         if k == 1: return self.ch.choice(label + '.simple', [1.0, 2.0, 0.5, 10.0])
+        if k == 5: return self.ch.choice(label + '.tiny', [1e-13, 3e-14, 1e-15, 1e-20])   # non-zero is non-empty
         return self.ch.logfloat(label, -3, 3)
 
     def draw_target(self, allow_unrepresentable_empty):
@@ -248,7 +251,19 @@ class Run:
         ne = m.nonempty()
         tw = int(any(q not in target for q in ne))
         region = f'{src}->{dst},twin={tw},empty-label-missing={int(label_missing)}'
-        ctx.call('op.phases', setattr, s, 'phases', tuple(target), region=region)
+        form = ch.choice('arg', ['tuple', 'list', 'set', 'str', 'dict-keys', 'generator', 'iter', 'dup-list', 'dup-str'])
+        if form == 'tuple': arg = tuple(target)
+        elif form == 'list': arg = list(reversed(target))
+        elif form == 'set': arg = set(target)
+        elif form == 'str': arg = ''.join(target)
+        elif form == 'dict-keys': arg = dict.fromkeys(target).keys()
+        elif form == 'generator': arg = (q for q in target)
+        elif form == 'iter': arg = iter(list(target))
+        elif form == 'dup-list': arg = list(target) + [target[0]]
+        else: arg = ''.join(target) + target[-1]
+        region += f',arg={form}'
+        ctx.call('op.phases', setattr, s, 'phases', arg, region=region)
+        ctx.cell('phases:arg=' + form)
         self.apply_target(target)
         ctx.cell('op:phases'); ctx.cell(f'phases:{src}->{dst}')
         m.last = f'phases={target}'
@@ -476,6 +491,9 @@ class Run:
             m.rows[m.labels.index(p)][i] = v
         else:
             vec = np.array(ch.flows('row', m.pk.n), float)
+            if ch.int('row.scale', 0, 3) == 0:
+                vec = vec * 1e-16          # a phase that holds a trace (row total far below 1e-12 kmol/hr) is still a phase
+                ctx.cell('write:trace-row')
             if m.kind == 'S':
                 ctx.call('op.write', s.mol.__setitem__, slice(None), vec, region='kind=S,form=row')
             else:
@@ -505,6 +523,56 @@ class Run:
         ctx.call('op.empty', s.empty, region=f'kind={m.kind}')
         for r in m.rows: r[:] = 0.0
         ctx.cell('op:empty'); self.hist.append(['empty', m.kind])
+
+    def inner_op(self):
+        op = self.ch.choice('inner', ['phases', 'write', 'TP', 'empty', 'reduce', 'view_write', 'parent_write'])
+        getattr(self, 'op_' + op)()
+
+    def op_temporary(self):
+        """`s.temporary(flow, T, P)` saves on entry of the with-block and restores on exit (built on get_data/set_data).
+        The context object may have been created earlier (deferred=1) or be entered again: what is restored is the state
+        at entry, as the context-manager protocol implies and as the code does."""
+        ch, ctx, s, m = self.ch, self.ctx, self.s, self.m
+        modes = ['now', 'create'] + (['enter-held'] if self.temps else [])
+        mode = ch.choice('mode', modes)
+        if mode in ('now', 'create'):
+            T = float(ch.float('tmp.T', *M.T_RANGE)) if ch.bool('tmp.T.given') else None
+            P = float(ch.logfloat('tmp.P', 4, 6.69)) if ch.bool('tmp.P.given') else None
+            flow = np.array(ch.flows('tmp.flow', m.pk.n), float) if ch.bool('tmp.flow.given') else None
+            t = ctx.call('op.temporary', s.temporary, flow=flow, T=T, P=P, region=f'kind={m.kind}')
+            entry = (t, flow, T, P)
+            if mode == 'create':
+                if len(self.temps) < 2: self.temps.append(entry)
+                ctx.cell('temporary:created'); self.hist.append(['temporary', 'create']); return
+            deferred = 0
+        else:
+            k = ch.int('held', 0, len(self.temps) - 1)
+            entry = self.temps[k]; deferred = 1
+        t, flow, T, P = entry
+        region = f'deferred={deferred},kind={m.kind},flow={int(flow is not None)}'
+        snap = m.snapshot(); snap['rows'] = [r.copy() for r in self.real_rows()]
+        got = ctx.call('op.temporary.enter', t.__enter__, region=region)
+        if got is not s:
+            ctx.fail(f'op.temporary.enter|{region}|identity', 'the with-block did not receive the stream itself')
+        if flow is not None: m.rows = [flow.copy() for _ in m.rows]
+        if T is not None: m.T = T
+        if P is not None: m.P = P
+        m.last = 'temporary.enter'
+        self.check_state('op.temporary.enter', region)
+        for _ in range(ch.int('n_inner', 0, 2)):
+            self.inner_op()
+        ctx.call('op.temporary.exit', t.__exit__, None, None, None, region=region)
+        src = m.kind
+        if snap['kind'] == 'S': m.set_single(snap['labels'][0], snap['rows'][0])
+        else: m.set_multi(snap['labels'], snap['rows'])
+        m.T, m.P = snap['T'], snap['P']; m.last = 'temporary.exit'
+        got = self.real_rows()
+        if list(vs.phases_of(s)) != m.labels or got.shape != np.array(m.rows).shape or not np.array_equal(got, np.array(m.rows)) \
+                or s.T != m.T or s.P != m.P:
+            ctx.fail(f'op.temporary.exit|{region}|not-restored',
+                     f'after the with-block: phases {vs.phases_of(s)} rows {got.tolist()} T,P {s.T!r},{s.P!r}; at entry {m.labels} '
+                     f'{[r.tolist() for r in m.rows]} {m.T!r},{m.P!r}')
+        ctx.cell('op:temporary'); ctx.cell(f'temporary:deferred={deferred}'); self.hist.append(['temporary', deferred, src])
 
     def op_snap(self):
         ctx, s, m = self.ctx, self.s, self.m
@@ -561,7 +629,7 @@ class Run:
 
 
 OPS = [('phases', 6), ('phase', 2), ('reduce', 2), ('as_stream', 1), ('solver', 2), ('view_write', 3), ('parent_write', 3),
-       ('view_read', 2), ('write', 3), ('TP', 1), ('empty', 1), ('snap', 2), ('restore', 3)]
+       ('view_read', 2), ('write', 3), ('TP', 1), ('empty', 1), ('snap', 2), ('restore', 3), ('temporary', 3)]
 OP_LIST = [n for n, w in OPS for _ in range(w)]
 
 
